@@ -170,6 +170,8 @@ def classify(meta, r, prop):
             continue
         # untagged: a safety check / panic inside the code under verification
         mine.append("[safety] " + full)
+    if r["status"] == "failed" and not r["failed"]:
+        return "undecided", [], "Kani reports FAILED without listing a failed check (tool problem; see the log)"
     if meta["expect"] == "fail":
         # must-fail canary: vacuity guard
         if r["status"] == "failed" and (mine or r["failed"]):
